@@ -135,10 +135,16 @@ def app_recipes(env):
                             R(path="/static/sub/b.txt", headers=[("Range", "bytes=1-3")]), R(path="/"), R(path="/sub"), R(path="/sub/"), R(path="/page"),
                             R(path="/a.txt", headers=[("If-None-Match", "*")]), R(path="/a.txt", headers=[("If-Modified-Since", "Wed, 21 Oct 2099 07:28:00 GMT")]),
                             R(path="/a.txt", headers=[("Range", "")]), R(path="/a.txt", headers=[("Range", "bytes=0-1"), ("If-Range", "")]),
-                            R(path="/a.txt", method="HEAD"), R(path="/missing"), R(path="/a.txt/x")]),
+                            R(path="/a.txt", method="HEAD"), R(path="/missing"), R(path="/a.txt/x"),
+                            # one header sent as several lines: the same abstract request as the comma-joined list (RFC 7230 3.2.2)
+                            R(path="/a.txt", headers=[("Range", "bytes=0-1"), ("Range", "bytes=3-4")]),
+                            R(path="/a.txt", headers=[("Range", "bytes=0-1"), ("If-Range", '"x"'), ("If-Range", '"y"')]),
+                            R(path="/a.txt", headers=[("If-Modified-Since", "Wed, 21 Oct 2099 07:28:00 GMT"), ("If-Modified-Since", "Wed, 21 Oct 1999 07:28:00 GMT")]),
+                            R(path="/a.txt", headers=[("If-Modified-Since", "Wed, 21 Oct 1999 07:28:00 GMT"), ("If-Modified-Since", "Wed, 21 Oct 2099 07:28:00 GMT")])]),
         ("mounts-unicode", lambda i: recipes.pkg(i).Subpaths(("/é", view_fn(i)), ("", recipes.pkg(i).PlainTextResponse("default"))),
          [R(path="/é/x"), R(path="/e/x")]),
-        ("hosts", hosts, [R(headers=[("Host", "api.example.com")]), R(headers=[("Host", "www.example.com:8000")]), R(headers=[("Host", "evil.com")]), R()]),
+        ("hosts", hosts, [R(headers=[("Host", "api.example.com")]), R(headers=[("Host", "www.example.com:8000")]), R(headers=[("Host", "evil.com")]), R(),
+                          R(headers=[("Host", "evil.com"), ("Host", "api.example.com")]), R(headers=[("Host", "api.example.com"), ("Host", "evil.com")])]),
     ]
 
 
